@@ -108,21 +108,42 @@ Proof.
     eapply pt_eq_trans; [apply aff_apply_mul|]. apply PA, Pid.
 Qed.
 
-(* items = streamlines for every tractogram not built by from_data_func *)
-Lemma lazy_items_no_data t : lz_has_data t = false -> lz_items t = lz_streamlines t.
-Proof. unfold lz_items. now intros ->. Qed.
+(* items = streamlines for EVERY lazy tractogram, however built *)
+Lemma lazy_items t : lz_items t = lz_streamlines t.
+Proof. unfold lz_items, lz_streamlines. destruct (lz_has_data t); reflexivity. Qed.
 
-(* S-C16c: for a lazily loaded TRK the items carry the raw voxmm points, not the RAS+mm points
-   that .streamlines gives; saved as TCK the raw points are what is written *)
-Definition raw0 : list (list pt) := [[(1, 2, 3); (4, 5, 6)]].
-Lemma lazy_items_refuted :
-  let t := lz_load_trk raw0 aff_halfvox in
-  lz_items t = raw0 /\ lz_saved_tck t = Some raw0
-  /\ sl_eq (lz_streamlines t) [[(1 # 2, 3 # 2, 5 # 2); (7 # 2, 9 # 2, 11 # 2)]]
-  /\ ~ sl_eq (lz_items t) (lz_streamlines t).
+(* a lazily loaded TRK (raw voxmm records, trackvis->RAS+mm affine T) saved again: TCK receives
+   T(raw), TRK under ANY target header (RAS+mm->trackvis affine Ti2) receives Ti2(T(raw)); T invertible *)
+Lemma lazy_saved_loaded_trk raw T Ti2 : ~ aff_det T == 0 ->
+  (exists w, lz_saved_tck (lz_load_trk raw T) = Some w /\ sl_eq w (map (map (aff_apply T)) raw))
+  /\ (exists w, lz_saved_trk Ti2 (lz_load_trk raw T) = Some w
+        /\ sl_eq w (map (map (fun x => aff_apply Ti2 (aff_apply T x))) raw)).
 Proof.
-  cbv zeta. split; [reflexivity|]. split; [reflexivity|]. split.
-  - vm_compute. repeat constructor.
-  - intros H. inversion H as [|? ? ? ? H1 _]; subst. inversion H1 as [|? ? ? ? Hp _]; subst.
-    vm_compute in Hp. destruct Hp as [Hp _]. discriminate Hp.
+  intros HT.
+  assert (PA : forall M p q, pt_eq p q -> pt_eq (aff_apply M p) (aff_apply M q)).
+  { intros M [[a b] c] [[d e] f] (H1 & H2 & H3). unfold pt_eq, aff_apply. rewrite H1, H2, H3. repeat split; reflexivity. }
+  (* after load: pending = T . id, affine_to_rasmm = T . T^-1 == id *)
+  set (R := aff_mul T (aff_inv T)).
+  assert (HR : aff_eq R aff_id) by (apply aff_inv_r; exact HT).
+  assert (Pid : forall x, pt_eq (aff_apply aff_id x) x) by apply aff_apply_id.
+  assert (PR : forall x, pt_eq (aff_apply R x) x).
+  { intros x. eapply pt_eq_trans; [apply aff_apply_proper, HR|apply Pid]. }
+  split; eexists; (split; [reflexivity|]); rewrite lazy_items;
+    (eapply sl_eq_trans; [apply lz_streamlines_spec|]); cbn [lz_pending lz_raw lz_apply_affine lz_load_trk];
+    apply sl_eq_map; intros x.
+  - fold R. eapply pt_eq_trans; [apply aff_apply_mul|]. eapply pt_eq_trans; [apply PR|].
+    eapply pt_eq_trans; [apply aff_apply_mul|]. apply PA, Pid.
+  - fold R. eapply pt_eq_trans; [apply aff_apply_mul|]. apply PA.
+    eapply pt_eq_trans; [apply aff_apply_mul|]. eapply pt_eq_trans; [apply PR|].
+    eapply pt_eq_trans; [apply aff_apply_mul|]. apply PA, Pid.
+Qed.
+
+(* concrete instance: the items of a lazily loaded TRK are its RAS+mm points *)
+Definition raw0 : list (list pt) := [[(1, 2, 3); (4, 5, 6)]].
+Lemma lazy_items_example :
+  let t := lz_load_trk raw0 aff_halfvox in
+  sl_eq (lz_items t) [[(1 # 2, 3 # 2, 5 # 2); (7 # 2, 9 # 2, 11 # 2)]]
+  /\ exists w, lz_saved_tck t = Some w /\ sl_eq w [[(1 # 2, 3 # 2, 5 # 2); (7 # 2, 9 # 2, 11 # 2)]].
+Proof.
+  cbv zeta. split; [vm_compute; repeat constructor|]. eexists. split; [reflexivity|]. vm_compute. repeat constructor.
 Qed.
